@@ -1,6 +1,6 @@
 (* Property C03 -- SIMD-intrinsic builds return the same results as the pure C++ path.
    For every instruction-set level L in {SSE2, SSE3, SSSE3, SSE4.1, SSE4.2, AVX, AVX2, AVX2+FMA} and for GLM_FORCE_QUAT_DATA_WXYZ,
-   every entry of the catalogue tools/trace/tr_C03.cpp (125 operations on aligned vec4 / vec3 / mat4 / mat3 / quat and dvec4 / dvec3 / dquat: operators,
+   every entry of the catalogue tools/trace/tr_C03.cpp (160 operations on aligned vec4 / vec3 / mat4 / mat3 / quat, dvec4 / dvec3 / dquat and ivec4 / uvec4 / ivec3: operators,
    comparisons, common, exponential, geometric, matrix and quaternion functions, lowp variants) traced through GLM's intrinsic
    kernels (simd_shim.hpp) means, component by component and for all real inputs of its domain, what the same entry traced through
    the generic code means.  Identical trees (up to the operand order of + and *, and fma = a*b+c) are decided by computation:
@@ -12,27 +12,30 @@
    decides, which the real semantics does not model; the check runs round/floor/ceil on all 2^32 binary32 values instead). *)
 Require Import ZArith List String Reals Lra Lia.
 From GLMV Require Import Expr SemR Cat.
-From W Require Import A_C03_defs Gen_C03_pure Gen_C03_purew Gen_C03_sse2 Gen_C03_sse3 Gen_C03_ssse3 Gen_C03_sse41 Gen_C03_sse42 Gen_C03_avx Gen_C03_avx2 Gen_C03_fma Gen_C03_sse2w Gen_C03_avx2w.
+From W Require Import A_C03_defs A_C03_int Gen_C03_pure Gen_C03_purew Gen_C03_sse2 Gen_C03_sse3 Gen_C03_ssse3 Gen_C03_sse41 Gen_C03_sse42 Gen_C03_avx Gen_C03_avx2 Gen_C03_fma Gen_C03_sse2w Gen_C03_avx2w.
 From W Require P_C03_sse2_pure P_C03_sse3_sse2 P_C03_ssse3_sse3 P_C03_sse41_pure P_C03_sse42_sse41 P_C03_avx_sse41 P_C03_avx2_avx P_C03_fma_avx2 P_C03_pure_purew P_C03_sse2w_sse2 P_C03_avx2w_avx2.
 
 Definition names : list string := map fst Gen_C03_pure.catalogue.
-Definition simd_means_pure (simd pure : cat) : Prop := Rel names simd pure.
+(* float and double entries in the real semantics (A_C03_defs), integer entries in 32-bit wrap-around arithmetic (A_C03_int) *)
+Definition simd_means_pure (simd pure : cat) : Prop := Rel names simd pure /\ RelZ names simd pure.
+Lemma both_trans a b c : simd_means_pure a b -> simd_means_pure b c -> simd_means_pure a c.
+Proof. intros [H1 H2] [H3 H4]. split; [exact (Rel_trans _ _ _ _ H1 H3)|exact (RelZ_trans _ _ _ _ H2 H4)]. Qed.
 
-Theorem C03_sse2 : simd_means_pure Gen_C03_sse2.catalogue Gen_C03_pure.catalogue. Proof. exact P_C03_sse2_pure.edge. Qed.
-Theorem C03_sse3 : simd_means_pure Gen_C03_sse3.catalogue Gen_C03_pure.catalogue. Proof. exact (Rel_trans _ _ _ _ P_C03_sse3_sse2.edge C03_sse2). Qed.
-Theorem C03_ssse3 : simd_means_pure Gen_C03_ssse3.catalogue Gen_C03_pure.catalogue. Proof. exact (Rel_trans _ _ _ _ P_C03_ssse3_sse3.edge C03_sse3). Qed.
-Theorem C03_sse41 : simd_means_pure Gen_C03_sse41.catalogue Gen_C03_pure.catalogue. Proof. exact P_C03_sse41_pure.edge. Qed.
-Theorem C03_sse42 : simd_means_pure Gen_C03_sse42.catalogue Gen_C03_pure.catalogue. Proof. exact (Rel_trans _ _ _ _ P_C03_sse42_sse41.edge C03_sse41). Qed.
-Theorem C03_avx : simd_means_pure Gen_C03_avx.catalogue Gen_C03_pure.catalogue. Proof. exact (Rel_trans _ _ _ _ P_C03_avx_sse41.edge C03_sse41). Qed.
-Theorem C03_avx2 : simd_means_pure Gen_C03_avx2.catalogue Gen_C03_pure.catalogue. Proof. exact (Rel_trans _ _ _ _ P_C03_avx2_avx.edge C03_avx). Qed.
-Theorem C03_fma : simd_means_pure Gen_C03_fma.catalogue Gen_C03_pure.catalogue. Proof. exact (Rel_trans _ _ _ _ P_C03_fma_avx2.edge C03_avx2). Qed.
+Theorem C03_sse2 : simd_means_pure Gen_C03_sse2.catalogue Gen_C03_pure.catalogue. Proof. exact (conj P_C03_sse2_pure.edge P_C03_sse2_pure.edgeZ). Qed.
+Theorem C03_sse3 : simd_means_pure Gen_C03_sse3.catalogue Gen_C03_pure.catalogue. Proof. exact (both_trans _ _ _ (conj P_C03_sse3_sse2.edge P_C03_sse3_sse2.edgeZ) C03_sse2). Qed.
+Theorem C03_ssse3 : simd_means_pure Gen_C03_ssse3.catalogue Gen_C03_pure.catalogue. Proof. exact (both_trans _ _ _ (conj P_C03_ssse3_sse3.edge P_C03_ssse3_sse3.edgeZ) C03_sse3). Qed.
+Theorem C03_sse41 : simd_means_pure Gen_C03_sse41.catalogue Gen_C03_pure.catalogue. Proof. exact (conj P_C03_sse41_pure.edge P_C03_sse41_pure.edgeZ). Qed.
+Theorem C03_sse42 : simd_means_pure Gen_C03_sse42.catalogue Gen_C03_pure.catalogue. Proof. exact (both_trans _ _ _ (conj P_C03_sse42_sse41.edge P_C03_sse42_sse41.edgeZ) C03_sse41). Qed.
+Theorem C03_avx : simd_means_pure Gen_C03_avx.catalogue Gen_C03_pure.catalogue. Proof. exact (both_trans _ _ _ (conj P_C03_avx_sse41.edge P_C03_avx_sse41.edgeZ) C03_sse41). Qed.
+Theorem C03_avx2 : simd_means_pure Gen_C03_avx2.catalogue Gen_C03_pure.catalogue. Proof. exact (both_trans _ _ _ (conj P_C03_avx2_avx.edge P_C03_avx2_avx.edgeZ) C03_avx). Qed.
+Theorem C03_fma : simd_means_pure Gen_C03_fma.catalogue Gen_C03_pure.catalogue. Proof. exact (both_trans _ _ _ (conj P_C03_fma_avx2.edge P_C03_fma_avx2.edgeZ) C03_avx2). Qed.
 (* GLM_FORCE_QUAT_DATA_WXYZ: SIMD against generic, both with the w-first storage order *)
 Theorem C03_sse2_wxyz : simd_means_pure Gen_C03_sse2w.catalogue Gen_C03_purew.catalogue.
-Proof. exact (Rel_trans _ _ _ _ P_C03_sse2w_sse2.edge (Rel_trans _ _ _ _ C03_sse2 P_C03_pure_purew.edge)). Qed.
+Proof. exact (both_trans _ _ _ (conj P_C03_sse2w_sse2.edge P_C03_sse2w_sse2.edgeZ) (both_trans _ _ _ C03_sse2 (conj P_C03_pure_purew.edge P_C03_pure_purew.edgeZ))). Qed.
 Theorem C03_avx2_wxyz : simd_means_pure Gen_C03_avx2w.catalogue Gen_C03_purew.catalogue.
-Proof. exact (Rel_trans _ _ _ _ P_C03_avx2w_avx2.edge (Rel_trans _ _ _ _ C03_avx2 P_C03_pure_purew.edge)). Qed.
-(* the statement is about all 125 entries, none untraceable *)
-Theorem C03_catalogue_size : List.length names = 125%nat. Proof. reflexivity. Qed.
+Proof. exact (both_trans _ _ _ (conj P_C03_avx2w_avx2.edge P_C03_avx2w_avx2.edgeZ) (both_trans _ _ _ C03_avx2 (conj P_C03_pure_purew.edge P_C03_pure_purew.edgeZ))). Qed.
+(* the statement is about all 160 entries (35 of them integer), none untraceable *)
+Theorem C03_catalogue_size : List.length names = 160%nat. Proof. reflexivity. Qed.
 (* non-vacuity: the premises of the domain-restricted entries are satisfiable, and a compared value is defined *)
 Example C03_domain_inhabited : D_big (fun _ _ _ => 1%R) /\ D_round (fun _ _ _ => 1%R) /\ D_mod (fun _ _ _ => 1%R) /\ D_nonneg (fun _ _ _ => 1%R).
 Proof.
